@@ -57,7 +57,7 @@ class Sched:
         if self.mode == "line" and kind not in EXPLICIT:
             # primitives are not gates of their own in line mode; a wait learns how it ends from the line's grant
             k = self.last_kind.pop(name, None)
-            return k if k in ("wait-timeout", "interrupt") else kind
+            return k if k in ("wait-timeout", "interrupt", "qget-empty", "qget-timeout") else kind
         return self._turn(name, kind)
 
     def line(self, filename, lineno):
@@ -99,6 +99,8 @@ class Sched:
     @staticmethod
     def _compatible(expected, actual):
         if expected == actual:
+            return True
+        if expected in ("qget-empty", "qget-timeout") and actual == "qget":
             return True
         return expected in ("wait-timeout", "interrupt") and actual == "wait"
 
@@ -153,6 +155,58 @@ class EventR:
         return True
 
 
+class QueueR:
+    """cooperative stand-in for queue.Queue (put / get / empty), turns decided by the schedule"""
+
+    def __init__(self, sched):
+        import collections
+
+        self.s, self.q = sched, collections.deque()
+        self.cv = threading.Condition()
+
+    def put(self, x):
+        self.s.sync("qput")
+        with self.cv:
+            self.q.append(x)
+            self.cv.notify_all()
+
+    def empty(self):
+        return not self.q
+
+    def qsize(self):
+        return len(self.q)
+
+    def get(self, block=True, timeout=None):
+        import queue as _q
+
+        granted = self.s.sync("qget")
+        if granted in ("qget-empty", "qget-timeout"):
+            raise _q.Empty()
+        if not block:
+            if not self.q:
+                raise _q.Empty()
+            return self.q.popleft()
+        with self.cv:
+            if self.s.free:
+                if not self.cv.wait_for(lambda: self.q, timeout):
+                    raise _q.Empty()
+            elif not self.q:
+                self.s.diverged = "model let a Queue.get() pass although the real queue is empty"
+                if not self.cv.wait_for(lambda: self.q, 2.0):
+                    raise _q.Empty()
+            return self.q.popleft()
+
+
+class _QueueModule:
+    """what execmodel.queue offers to gateway_base (Queue, Empty)"""
+
+    def __init__(self, sched):
+        import queue as _q
+
+        self.Empty = _q.Empty
+        self.Queue = lambda *a, **k: QueueR(sched)
+
+
 class ReplayExecModel(gb.ThreadExecModel):
     def __init__(self, sched, backend="thread", slot_names=None):
         self.sched = sched
@@ -162,6 +216,10 @@ class ReplayExecModel(gb.ThreadExecModel):
     @property
     def backend(self):
         return self._backend
+
+    @property
+    def queue(self):
+        return _QueueModule(self.sched)
 
     def Lock(self):
         return RLockR(self.sched)
@@ -234,7 +292,11 @@ def run_schedule(programs: dict, order, env_builder, patience=3.0, settle=1.0, m
     TASKn callables).  Returns (ghost dict, finished thread names, blocked thread names, sched)."""
     sched = Sched(order, patience, mode, gates, ungated_until)
     G = Ghost(sched)
+    sched.free = True            # building the objects (locks, channels, ...) is not part of the schedule
     env = env_builder(sched, G)
+    sched.free = False
+    sched.diverged = None
+    sched.log.clear()
     env["G"] = G
 
     def await_(cond_fn=None):
